@@ -84,11 +84,15 @@ def C08_full (e : D) : Prop :=
     (∃ x ∈ l8, x.mt = some m) → NewestOfAll l8 m →
     ∃ d, finalStart e hd (evs.foldl (startEvent e) { old8 := some l8 }) = .ok (upgraded m d)
 
-/-- it holds whenever the newest entry is complete … -/
-theorem upgrade_keeps_newest_of_all_v8 (e : D) {l8 : List (S8 D)} {m : Meta} {d : D} (h : C8 l8 m d)
-    (_hn : NewestOfAll l8 m) (evs : List (Event D)) (hd : Bool) :
+/-- it holds whenever the entry carrying the newest meta.json of ALL entries is complete (a
+directory with its `<id>.db`; ids distinct): then "newest complete" is "newest", so the upgraded
+store holds exactly that snapshot … -/
+theorem upgrade_keeps_newest_of_all_v8 (e : D) {l8 : List (S8 D)} {m : Meta} {d : D}
+    (hn : NewestOfAll l8 m) (hids : (l8.map (·.id)).Nodup)
+    {x : S8 D} (hx : x ∈ l8) (hid : x.id = m.id) (hmt : x.mt = some m) (hdir : x.dir = true) (hdb : x.db = some d)
+    (evs : List (Event D)) (hd : Bool) :
     finalStart e hd (evs.foldl (startEvent e) { old8 := some l8 }) = .ok (upgraded m d) :=
-  upgrade_crash_safe_v8 e h evs hd
+  upgrade_crash_safe_v8 e (C8_of_newestOfAll hn hids hx hid hmt hdir hdb) evs hd
 
 /-- … and not otherwise: when the entry with the newest meta.json has lost its database file, the
 upgrade silently falls back to the newest complete one (no crash involved). -/
@@ -100,6 +104,14 @@ theorem newest_incomplete_fallback_witness :
   intro x hx m' hm
   simp only [List.mem_cons, List.mem_nil_iff, or_false] at hx
   rcases hx with rfl | rfl <;> simp at hm <;> subst hm <;> decide
+
+/-- for a v7 store the corresponding situation is loud, not silent: when the entry with the newest
+meta.json has lost its state file, Upgrade7To8 (and every later start) returns an error and nothing
+is upgraded -/
+theorem newest_incomplete_v7_fails_witness :
+    start 0 ({ old7 := some [{ id := 1, mt := some ⟨1, 8, 2⟩, st := .data 5 },
+                             { id := 2, mt := some ⟨2, 18, 2⟩, st := .missing }] } : US Nat)
+      = .error "u78-state-missing" := by decide
 
 theorem C08_full_fails : ¬ C08_full (0 : Nat) := by
   intro h
